@@ -718,5 +718,37 @@ package commonmark
 //@       || (0 <= stack[k].Cursor.index && stack[k].Cursor.index < apply(childCount, stack[k].Cursor.parent)
 //@           && stack[k].Cursor.node == apply(getChild, stack[k].Cursor.parent, stack[k].Cursor.index))
 //@   loop 1: decreases i + 1
+//@   -- Step contract (DESIGN 7.18).  ncb counts calls of Pre/Post, lastcb is the result of the last one.  Per iteration
+//@   -- with popped frame f = prev(stack[top]): the rest of the stack is unchanged; exactly one callback is made if the
+//@   -- one for f's phase is configured; a post frame pushes nothing; a pre frame whose Pre returned false pushes nothing;
+//@   -- otherwise post(f) is pushed, then the frames of f's children n-1 ... 0 (index, parent, node, nearest enclosing
+//@   -- block).  With the code-independent lemma L-DFS this is: Pre in document order, children exactly when Pre returned
+//@   -- true, Post after the children, each node once.  (A false Post leaves the loop: nothing further is called.)
+//@   ghost ncb = 0
+//@   ghost lastcb = 1
+//@   callsite func(*Cursor) bool: ghost lastcb = $result ? 1 : 0
+//@   callsite func(*Cursor) bool: ghost ncb = ncb + 1
+//@   loop 0: step[pop] len(prev(stack)) >= 1 && curr.Cursor == prev(stack[len(stack) - 1].Cursor)
+//@   loop 0: step[rest] len(stack) >= len(prev(stack)) - 1 && (forall k in [0, len(prev(stack)) - 1): stack[k] == prev(stack[k]))
+//@   loop 0: step[once] ncb == prev(ncb) + ((prev(stack[len(stack) - 1].post) ? opts.Post != nil : opts.Pre != nil) ? 1 : 0)
+//@   loop 0: step[post] prev(stack[len(stack) - 1].post) ==> len(stack) == len(prev(stack)) - 1
+//@   loop 0: step[prune] (!prev(stack[len(stack) - 1].post) && opts.Pre != nil && lastcb == 0) ==> len(stack) == len(prev(stack)) - 1
+//@   loop 0: step[descend-len] (!prev(stack[len(stack) - 1].post) && (opts.Pre == nil || lastcb == 1)) ==> (len(stack) == len(prev(stack)) + apply(childCount, curr.Cursor.node)
+//@       && stack[len(prev(stack)) - 1].Cursor == curr.Cursor && stack[len(prev(stack)) - 1].post)
+//@   loop 0: step[descend-post] (!prev(stack[len(stack) - 1].post) && (opts.Pre == nil || lastcb == 1)) ==> (forall j in [0, apply(childCount, curr.Cursor.node)): !stack[len(prev(stack)) + j].post)
+//@   loop 0: step[descend-index] (!prev(stack[len(stack) - 1].post) && (opts.Pre == nil || lastcb == 1)) ==> (forall j in [0, apply(childCount, curr.Cursor.node)): stack[len(prev(stack)) + j].Cursor.index == apply(childCount, curr.Cursor.node) - 1 - j)
+//@   loop 0: step[descend-parent] (!prev(stack[len(stack) - 1].post) && (opts.Pre == nil || lastcb == 1)) ==> (forall j in [0, apply(childCount, curr.Cursor.node)): stack[len(prev(stack)) + j].Cursor.parent == curr.Cursor.node)
+//@   loop 0: step[descend-node] (!prev(stack[len(stack) - 1].post) && (opts.Pre == nil || lastcb == 1)) ==> (forall j in [0, apply(childCount, curr.Cursor.node)): stack[len(prev(stack)) + j].Cursor.node == apply(getChild, curr.Cursor.node, apply(childCount, curr.Cursor.node) - 1 - j))
+//@   loop 0: step[descend-block] (!prev(stack[len(stack) - 1].post) && (opts.Pre == nil || lastcb == 1)) ==> (forall j in [0, apply(childCount, curr.Cursor.node)): stack[len(prev(stack)) + j].Cursor.block == ((curr.Cursor.node.typ == 1 && curr.Cursor.node.ptr != nil) ? curr.Cursor.node.ptr : curr.Cursor.block))
+//@   loop 1: invariant[lower] -1 <= i
+//@   loop 1: invariant[once] ncb == outer(ncb) + ((opts.Pre != nil) ? 1 : 0) && !outer(stack[len(stack) - 1].post) && (opts.Pre == nil || lastcb == 1) && curr.post
+//@   loop 1: invariant[pop] len(outer(stack)) >= 1 && curr.Cursor == outer(stack[len(stack) - 1].Cursor)
+//@   loop 1: invariant[rest] len(stack) == len(outer(stack)) + (apply(childCount, curr.Cursor.node) - 1 - i) && (forall k in [0, len(outer(stack)) - 1): stack[k] == outer(stack[k]))
+//@   loop 1: invariant[top] stack[len(outer(stack)) - 1].Cursor == curr.Cursor && stack[len(outer(stack)) - 1].post
+//@   loop 1: invariant[pushed-post] forall j in [0, apply(childCount, curr.Cursor.node) - 1 - i): !stack[len(outer(stack)) + j].post
+//@   loop 1: invariant[pushed-index] forall j in [0, apply(childCount, curr.Cursor.node) - 1 - i): stack[len(outer(stack)) + j].Cursor.index == apply(childCount, curr.Cursor.node) - 1 - j
+//@   loop 1: invariant[pushed-parent] forall j in [0, apply(childCount, curr.Cursor.node) - 1 - i): stack[len(outer(stack)) + j].Cursor.parent == curr.Cursor.node
+//@   loop 1: invariant[pushed-node] forall j in [0, apply(childCount, curr.Cursor.node) - 1 - i): stack[len(outer(stack)) + j].Cursor.node == apply(getChild, curr.Cursor.node, apply(childCount, curr.Cursor.node) - 1 - j)
+//@   loop 1: invariant[pushed-block] forall j in [0, apply(childCount, curr.Cursor.node) - 1 - i): stack[len(outer(stack)) + j].Cursor.block == ((curr.Cursor.node.typ == 1 && curr.Cursor.node.ptr != nil) ? curr.Cursor.node.ptr : curr.Cursor.block)
 //@   unclaimed dec:0 termination of the traversal relies on the tree being finite and acyclic (DESIGN 4.3)
 //@   serves C18, C04
